@@ -255,7 +255,11 @@ class ListV(V):
 
     def append(self, v):
         old, idx = self.fn, self.n
-        self.fn = lambda j: vite(j == idx, v, old(j))
+        n0 = z3.simplify(self.n)
+        if z3.is_int_value(n0) and n0.as_long() == 0:
+            self.fn = lambda j: v  # first element decides the element shape
+        else:
+            self.fn = lambda j: vite(j == idx, v, old(j))
         self.n = self.n + 1
 
     def extend(self, seq):
